@@ -210,7 +210,7 @@ example : callErr (run Fixes.all { udReq := [[.ok, .fail (.stage 7)]], transport
 def exLoud : Stack :=
   { udReq := [[.ok], [.ok, .fail (.stage 2)]],
     wrappers := [[.postErr (.stage 3)], [.pass, .shortNil (.stage 4)]],
-    transport := [.resp (⟨500, [], none, true, false, false⟩), .fail (.stage 5)],
+    transport := [.resp { status := 500, ct := [], custom := none, readOK := true, jsonOK := false, xmlOK := false }, .fail (.stage 5)],
     clientResp := [[.set (.stage 6)]],
     reqResp := [[.mw (.ret (.stage 7))], [.digest true (.fail (.stage 8))]],
     errorTarget := true,
@@ -402,7 +402,7 @@ binds nothing — provided no later client-level middleware overrides it (last e
 `precedence_client_loop_last_wins`). By `stage_error_is_seen` the caller then sees an error. -/
 theorem unmarshal_failure_surfaces_roundtrip (s : Stack) (a : Nat) (h : Http) (t : Target)
     (hg : s.getBodyAt a = false) (ht : s.transportAt a = .resp h) (hsel : targetFor s h = some t)
-    (hread : h.readOK = true) (hbad : codecOK h = false) (hquiet : ∀ m ∈ s.clientAt a, m = .nop) :
+    (hread : h.bodyOK = true) (hbad : codecOK h = false) (hquiet : ∀ m ∈ s.clientAt a, m = .nop) :
     (clientRoundTrip s a).err = some .unmarshal ∧
     ∃ r, (clientRoundTrip s a).resp = some r ∧ r.err = some .unmarshal ∧ r.slots = {} ∧
       .raised .unmarshal ∈ (clientRoundTrip s a).evs := by
